@@ -293,7 +293,8 @@ pub fn draw_spec(rng: &mut Prng, o: &SpecOpts) -> Option<ParamSpec> {
                 }
             } else {
                 // arbitrary (non-batching) plain modulus, coprime to every q (q are primes > t or not dividing it)
-                let cand = (1u64 << (bits - 1)) + rng.below(1u64 << (bits - 1));
+                // now and then an exact power of two (256, 65536: the byte width of t and of t - 1 differ)
+                let cand = if rng.chance(1, 3) { 1u64 << *rng.pick(&[bits - 1, 8, 16]).min(&(total_bits.saturating_sub(3).max(2))) } else { (1u64 << (bits - 1)) + rng.below(1u64 << (bits - 1)) };
                 if cand >= 2 && q.iter().all(|&p| cand % p != 0) {
                     t = Some(cand);
                     break;
